@@ -16,6 +16,7 @@ mod c12;
 mod c13;
 mod c14;
 mod c15;
+mod c16;
 mod c18;
 mod lite;
 mod truth;
@@ -75,6 +76,7 @@ fn main() {
             "C13" => c13::replay(&v),
             "C14" => c14::replay(&v),
             "C15" => c15::replay(&v),
+            "C16" => c16::replay(&v),
             "C18" => c18::replay(&v),
             _ => {
                 eprintln!("no replay for {id}");
@@ -97,6 +99,7 @@ fn main() {
             "C13" => c13::run(tier),
             "C14" => c14::run(tier),
             "C15" => c15::run(tier),
+            "C16" => c16::run(tier),
             "C18" => c18::run(tier),
             "SMOKE" => smoke::run("/tmp/x/smoke"),
             _ => {
